@@ -24,3 +24,13 @@ Theorem C14_activity_terminates : forall client ls s l s',
   wmeasure s' < wmeasure s.
 Proof. exact internal_activity_terminates. Qed.
 Print Assumptions C14_activity_terminates.
+
+(* ---- one RPC end to end (Rpc.v), every interleaving: finished means removed from both tables ---- *)
+From GT Require Import Rpc RpcProofs RpcSystem.
+Theorem C14_rpc_tables_clean : forall strict ls s, rrun strict r_init ls = Some s ->
+  (k_done (r_k s) <> None -> c_quiet (r_k s) = true -> k_tab (r_k s) = false) /\
+  (v_h (r_v s) = HRet -> v_hf (r_v s) = S0 -> v_tab (r_v s) = false) /\
+  (v_h (r_v s) = HRej \/ v_h (r_v s) = HNone -> v_tab (r_v s) = false) /\
+  (v_closed (r_v s) = true -> v_tab (r_v s) = false).
+Proof. exact rpc_tables_clean. Qed.
+Print Assumptions C14_rpc_tables_clean.
